@@ -8,6 +8,7 @@ import DL.Model.CFRules
 import DL.Model.RegexJson
 import DL.Model.ScopeJson
 import DL.Model.FixBuild
+import DL.Model.Txt
 
 /-! `dlmodel`: one JSON request per line on stdin, one JSON answer per line on stdout. -/
 open Lean (Json)
@@ -181,6 +182,9 @@ def dispatch (j : Json) : Except String Json := do
   | "cf" => runCf j
   | "rx" => DL.Rx.runRx j
   | "scope" => DL.Scope.runScope j
+  | "txt" => do
+    let t ← getStr j "t"
+    pure (Json.mkObj [("hits", Json.arr ((DL.Txt.preferAscii t.toList).map (fun h => Json.arr #[(h.start : Json), (h.stop : Json)])).toArray)])
   | "fixb" => do
     let v ← getStr j "v"
     pure (Json.mkObj [("text", match DL.FixBuild.jsxAttrQuote v.toList with
